@@ -4,7 +4,9 @@ Decided here: clause 1 only - with the random normals supplied by the caller thr
 seam, Brownian and geometric Brownian paths equal the exact solution of their SDE step by step, and
 the Merton / Kou jump models reduce to it at zero jump intensity; plus the noise-free skeleton
 (F11 noise_stall: the engine returns zeros; sigma = 0 for the generators without an engine seam
-where the scheme is exact there).  NOT decided: every distributional clause (means, variances,
+where the scheme is exact there); the drift compensator of the jump models, read off the jump-free
+steps of a stalled-engine run with rare jumps (closed form, no statistics); and that a simulation
+aborted by its sigma_fn leaves the previous complete sample.  NOT decided: every distributional clause (means, variances,
 correlations, martingale property, QE branch moments, rough-Bergomi forward variance) - those need
 large-sample statistics with error bars, which is statistical testing, not this family.
 """
